@@ -15,7 +15,7 @@ const xmlNsURI = "http://www.w3.org/XML/1998/namespace"
 
 var codeToStr = map[string]string{
 	"sp": " ", "tab": "\t", "nl": "\n", "cr": "\r",
-	"nbsp": " ", "w2": "é", "w3": "中", "w4": "😀", "cm": "́",
+	"nbsp": " ", "w2": "é", "w3": "中", "w4": "😀", "cm": "́", "wsl": "Ġ",
 	"XMLNS": xmlNsURI,
 }
 
